@@ -148,6 +148,23 @@ def _rows_of_alloc(v, L):
     return None, None, None
 
 
+def _dtype_ok(ck, rule, fi, p, alloc, names, py_, label):
+    """the tables are allocated with the dtype of the series (or float64): the
+    lag features and targets are the series' own values, not a cast of them"""
+    for nm in names:
+        v = alloc.get(nm)
+        if not isinstance(v, ast.Call):
+            continue
+        dt = [k.value for k in v.keywords if k.arg == "dtype"]
+        if not dt and _t(v.func) == "numpy.full" and len(v.args) > 2:
+            dt = [v.args[2]]
+        if not dt and _t(v.func) in ("numpy.empty", "numpy.zeros") and len(v.args) > 1:
+            dt = [v.args[1]]
+        txt = _t(dt[0]).replace("__set", "") if dt else "float64 (default)"
+        ok = not dt or txt in (f"{py_}.dtype", "numpy.float64", "float", "'float64'", "numpy.double")
+        ck.verdict(ok, rule, fi, p.origin.get(nm) or f"{nm} allocation", f"{label}: {nm} holds the series' values unchanged (dtype {txt})", f"{label}: {nm} is allocated with dtype={txt}, not the dtype of the series {py_}: lag features / targets are cast (rounded or truncated) instead of being the series' values, and the plain and same_rows tables no longer agree")
+
+
 def check_a(ck, repo):
     fi = repo.func(UT, "build_ts_X_y")
     try:
@@ -161,6 +178,8 @@ def check_a(ck, repo):
     nrow, _, _ = _rows_of_alloc(alloc.get(oX), L)
     nrow_y, _, _ = _rows_of_alloc(alloc.get(oy), L)
     ck.verdict(nrow is not None and nrow == want_rows and nrow_y == want_rows, "C20.a", fi, f"rows allocated = {nrow!r}", "number of rows n - delay2 - past + 2", f"the tables have {nrow!r} / {nrow_y!r} rows, expected n - d2 - past + 2")
+    _dtype_ok(ck, "C20.a", fi, p, alloc, (oX, oy), prm[2], "plain variant, X given")
+    _dtype_ok(ck, "C20.a", fi, p0, alloc0, (oX, oy), prm[2], "plain variant, X absent")
     nrow = want_rows
     for role in ("lags", "targets", "exog", "weights"):
         if role not in P:
@@ -222,6 +241,7 @@ def check_b(ck, repo, plainP):
     for nm in (oX, oy):
         rows, ctor, fill = _rows_of_alloc(alloc.get(nm), L)
         ck.verdict(rows is not None and rows == N and ctor == "numpy.full" and fill == "numpy.nan", "C20.b", fi, p.origin.get(nm) or f"{nm} = numpy.full((n, ..), nan)", f"{nm} has n rows, NaN where no value is available", f"{nm} is not a NaN-filled array with n rows")
+    _dtype_ok(ck, "C20.b", fi, p, alloc, (oX, oy), prm[2], "same_rows variant")
     for role in ("lags", "targets", "exog"):
         if role not in P or plainP is None or role not in plainP:
             ck.unknown("C20.b", fi, role, f"store for '{role}' not found in both variants")
@@ -381,6 +401,8 @@ _PLAIN_T = "            for i in range(model.delay1, model.delay2):\n           
 WITNESSES = [
     {"name": "plain-target-overlaps-lag", "file": _U, "rule": "C20.a", "old": _PLAIN_T, "new": "            for i in range(model.delay1, model.delay2):\n                dec = model.past - 2\n                new_y[:, i - model.delay1] = y[i + dec : i + nrow + dec]\n"},
     {"name": "plain-target-offset-by-delay2", "file": _U, "rule": "C20.a", "old": _PLAIN_T, "new": "            for i in range(model.delay1, model.delay2):\n                dec = model.past - (model.delay2 - model.delay1)\n                new_y[:, i - model.delay1] = y[i + dec : i + nrow + dec]\n"},
+    {"name": "plain-table-dtype-of-exog", "file": _U, "rule": "C20.a", "old": "            new_X = numpy.empty((nrow, ncol + model.past), dtype=y.dtype)\n", "new": "            new_X = numpy.empty((nrow, ncol + model.past), dtype=X.dtype if X is not None else y.dtype)\n"},
+    {"name": "same-rows-table-float32", "file": _U, "rule": "C20.b", "old": "            new_X = numpy.full(\n                (y.shape[0], ncol + model.past), numpy.nan, dtype=y.dtype\n            )\n", "new": "            new_X = numpy.full(\n                (y.shape[0], ncol + model.past), numpy.nan, dtype=numpy.float32\n            )\n"},
     {"name": "plain-exog-looks-ahead", "file": _U, "rule": "C20.a", "old": "                new_X[:, : X.shape[1]] = X[\n                    model.past - 1 : X.shape[0] - model.delay2 + 1\n                ]\n            for i in range(model.past):\n                end = y.shape[0] + i + model.delay1 - 1 - model.delay2 - model.past + 2\n                new_X[:, i + ncol] = y[i:end]\n            new_y = numpy.empty", "new": "                new_X[:, : X.shape[1]] = X[\n                    model.past : X.shape[0] - model.delay2 + 2\n                ]\n            for i in range(model.past):\n                end = y.shape[0] + i + model.delay1 - 1 - model.delay2 - model.past + 2\n                new_X[:, i + ncol] = y[i:end]\n            new_y = numpy.empty"},
     {"name": "plain-weights-from-zero", "file": _U, "rule": "C20.a", "old": "                else weights[model.past - 1 : model.past - 1 + nrow]\n            )\n    return", "new": "                else weights[:nrow]\n            )\n    return"},
     {"name": "same-rows-exog-last-target", "file": _U, "rule": "C20.b", "old": "                new_X[first:, : X.shape[1]] = X[\n                    model.past - 1 : X.shape[0] - model.delay2 + 1\n                ]\n", "new": "                new_X[first:, : X.shape[1]] = X[first:]\n"},
